@@ -4,3 +4,4 @@ import FlowCalModel.Text
 import FlowCalModel.Data
 import FlowCalModel.File
 import FlowCalModel.Index
+import FlowCalModel.Pickle
